@@ -41,7 +41,7 @@ def collect(tier, cov):
     acts = {}
     lens = {"sp": 1, "nl": 1, "glue": 0}      # characters per token / joiner name (from the one-token states)
     for cfg in CONFIGS[tier]:
-        r = core.tlc_or_die("Strip", cfg="Strip_" + cfg, timeout=2400, heap="3g")
+        r = core.tlc_or_die("Strip", cfg="Strip_" + cfg, timeout=7200, heap="3g")
         cov["tlc"].append(dict(r.summary(), config=cfg))
         if len(r.printed) != r.distinct:
             core.die("Strip_%s: %d states but %d published cases" % (cfg, r.distinct, len(r.printed)))
